@@ -126,7 +126,9 @@ inline bool decompress(int algo, const bytes &in, bytes &out, std::string &err) 
   err = "unknown algorithm " + std::to_string(algo);
   return false;
 }
-inline bool compress(int algo, int level, const bytes &in, bytes &out) {
+// zlib_wbits: 0 = compress2 (window 2^15); 9..15 = a deflate stream declaring that (smaller) window in its header, which is
+// just as legal a zlib stream and is what an encoder tuned for small blocks emits
+inline bool compress(int algo, int level, const bytes &in, bytes &out, int zlib_wbits = 0) {
   switch (algo) {
     case NONE: out = in; return true;
     case SNAPPY: {
@@ -139,8 +141,23 @@ inline bool compress(int algo, int level, const bytes &in, bytes &out) {
     case ZLIB: {
       if (level < -1) level = -1;
       if (level > 9) level = 9;
-      uLongf n = compressBound((uLong)in.size());
+      uLongf n = compressBound((uLong)in.size()) + 64;
       out.resize(n);
+      if (zlib_wbits >= 9 && zlib_wbits <= 15) {
+        z_stream zs;
+        memset(&zs, 0, sizeof zs);
+        if (deflateInit2(&zs, level, Z_DEFLATED, zlib_wbits, 8, Z_DEFAULT_STRATEGY) != Z_OK) return false;
+        zs.next_in = (Bytef *)in.data();
+        zs.avail_in = (uInt)in.size();
+        zs.next_out = (Bytef *)&out[0];
+        zs.avail_out = (uInt)n;
+        int zr = deflate(&zs, Z_FINISH);
+        n = zs.total_out;
+        deflateEnd(&zs);
+        if (zr != Z_STREAM_END) return false;
+        out.resize(n);
+        return true;
+      }
       if (compress2((Bytef *)&out[0], &n, (const Bytef *)in.data(), (uLong)in.size(), level) != Z_OK) return false;
       out.resize(n);
       return true;
@@ -330,6 +347,7 @@ struct EFile {
   bytes prefix;
   uint64_t block_size_field = 8192;
   int index_restart_interval = 16;
+  int zlib_wbits = 0;  // 0: library default; 9..15: block i declares window 9 + ((zlib_wbits - 9 + 3 i) mod 7), so windows vary between blocks
   std::vector<EBlock> blocks;
 };
 inline bytes encode_block_contents(const std::vector<EEntry> &es, const std::vector<size_t> &restart_at) {
@@ -376,7 +394,9 @@ inline bytes encode_file(const EFile &f, bool *ok = nullptr) {
   for (auto &b : f.blocks) {
     uint64_t off = img.size();
     bytes raw = encode_block_contents(b.entries, b.restart_at), stored;
-    if (!compress(f.algo, f.level, raw, stored)) {
+    size_t bi = (size_t)(&b - &f.blocks[0]);
+    int wb = f.zlib_wbits ? 9 + (int)(((size_t)(f.zlib_wbits - 9) + 3 * bi) % 7) : 0;
+    if (!compress(f.algo, f.level, raw, stored, wb)) {
       if (ok) *ok = false;
       return bytes();
     }
